@@ -297,4 +297,27 @@ theorem broadcast_hist_tape (cfg : BC.Cfg) (w0 : World) (t0 : Tape) (ops : List 
   obtain ⟨hW, hops⟩ := BC.bcPre_hyps hpre
   exact BC.specFrom_model hW ops { BC.init w0 with tape := t0 } .unit hops (Or.inr ⟨rfl, rfl⟩)
 
+/-- a history with everything in it on the world with the blocker: reset; a step in which agent 0 broadcasts; a read by
+agent 2; a reward read; both done getters; a read for an agent that does not exist (raises, ends the trace) -/
+def exBCHistOps : List BC.BOp :=
+  [.reset (.position .position {}) [], .step [(0, { broadcast := 1 })] [], .obs 2 [], .rew 0, .done 0, .allDone,
+   .obs 7 []]
+
+/-- the precondition is inhabited, and the trace is the expected one (raised?) … -/
+example : BC.bcPre exBCCfg3 exBCWorld3 exBCHistOps = true ∧
+    ((BC.runOps exBCCfg3 (BC.init exBCWorld3) exBCHistOps).1.map fun e => e.res.isErr) =
+      [false, false, false, false, false, false, true] := by
+  refine ⟨by decide +kernel, by decide +kernel⟩
+
+/-- … and it passes the judge, by the theorem -/
+example : BC.specBC exBCCfg3 exBCWorld3
+    (BC.zipOps exBCHistOps (BC.runOps exBCCfg3 (BC.init exBCWorld3) exBCHistOps).1) = true :=
+  broadcast_hist exBCCfg3 exBCWorld3 exBCHistOps (by decide +kernel)
+
+/-- the judge is not trivially true: the same trace with every receiving list emptied is rejected (the delivery clause) -/
+example : BC.specBC exBCCfg3 exBCWorld3
+    (BC.zipOps exBCHistOps ((BC.runOps exBCCfg3 (BC.init exBCWorld3) exBCHistOps).1.map fun e =>
+      { e with recv := some (BC.emptyRecv exBCCfg3 4) })) = false := by
+  decide +kernel
+
 end Abmarl
